@@ -1226,6 +1226,11 @@ func (x *Exec) callWritesGhost(fr *Frame, c *ast.CallExpr) (all bool, names []st
 			fn, _ = info.Uses[se.Sel].(*types.Func)
 		}
 	}
+	if se, ok := ast.Unparen(c.Fun).(*ast.SelectorExpr); ok {
+		if g := metricsGhost(se.X); g != "" {
+			return false, []string{g}
+		}
+	}
 	if fn == nil {
 		// a function value: counted; a callback parameter with a declared frame writes no ghost
 		return false, []string{"callcount"}
